@@ -168,6 +168,28 @@ func concurrent(pb int, nkeys int, symbolicState bool, warm bool, reqs ...*req) 
 		}
 	}
 	vsym.Assert("L1-outcome-equals-some-sequential-order", linearizable)
+	// what was approved is remembered by the running instance (not only by the store): a conflicting
+	// re-submission of every approved attestation, one at a time, is refused
+	for k, r := range reqs {
+		if r.action != ruler.ActionSignBeaconAttestation {
+			continue
+		}
+		for j, ki := range r.keys {
+			if j >= len(got[k]) || got[k][j] != rules.APPROVED {
+				continue
+			}
+			again := []*ruler.RulesData{{WalletName: "W", AccountName: fmt.Sprintf("a%d", ki), PubKey: hc.Keys[ki][:],
+				Data: &rules.SignBeaconAttestationData{Domain: attDomain(), BeaconBlockRoot: hc.MkRoot(0x77),
+					Source: &rules.Checkpoint{Epoch: r.s[j], Root: hc.Root}, Target: &rules.Checkpoint{Epoch: r.t[j], Root: hc.Root}}}}
+			res := w.ruler.RunRules(ctx, hc.Creds(), ruler.ActionSignBeaconAttestation, again)
+			vsym.Assert("L2-approved-attestation-is-remembered", len(res) == 1 && res[0] != rules.APPROVED)
+		}
+	}
+}
+
+// SinglesOnDifferentKeys: two requests that share no key, and the memory of both afterwards.
+func SinglesOnDifferentKeys() {
+	concurrent(2, 2, false, false, attReq("a", []int{0}), attReq("b", []int{1}))
 }
 
 func permutations(n int) [][]int {
